@@ -182,5 +182,39 @@ def detCrowding (closer : Nat → Bool) (population : List Indv) (target : Nat) 
 def detCrowdingCall (closer : Nat → Bool) (population : List Indv) (target : Nat) : Option (List Indv) :=
   (detCrowding closer population target).map (·.take target)
 
+/-! ## probabilistic operators
+
+The random numbers are oracle inputs: `coin k` is the outcome of `np.random.random() < prob` in the `k`-th call of
+`ProbabilisticCrowding._return_most_fit`; `index` is what `np.searchsorted(np.cumsum(weights), rand)` returned in
+`ProbabilisticTournament._probabilistic_model_selection`. -/
+
+/-- `ProbabilisticCrowding._return_most_fit(child, parent)` -/
+def probMostFit (coin : Nat → Bool) (child parent : Indv) (k : Nat) : Indv :=
+  if parent.key.isNan then child
+  else if child.key.isNan then parent
+  else if coin k then child else parent
+
+/-- `ProbabilisticCrowding.__call__` (inherits `GeneralizedCrowding.__call__`) -/
+def probCrowdingCall (coin : Nat → Bool) (closer : Nat → Bool) (population : List Indv) (target : Nat) :
+    Option (List Indv) :=
+  (crowding (probMostFit coin) closer population target).map (·.take target)
+
+/-- `np.searchsorted(cs, r)` (side = left) on a non-decreasing list: the number of entries `< r` -/
+def searchLeft (cs : List Nat) (r : Nat) : Nat := (cs.filter (· < r)).length
+
+/-- `np.cumsum` -/
+def cumsum : List Nat → List Nat
+  | [] => []
+  | a :: rest => a :: (cumsum rest).map (a + ·)
+
+/-- one probabilistic tournament: all members NaN -> the first member; otherwise `potential_models[index]` -/
+def probTournamentWinner (pop : List Indv) (sample : List Nat) (index : Nat) : Option Indv :=
+  match sample.mapM (pop[·]?) with
+  | none => none
+  | some members => if members.all (·.key.isNan) then members[0]? else members[index]?
+
+def probTournament (pop : List Indv) (samples : List (List Nat × Nat)) : Option (List Indv) :=
+  samples.mapM fun p => probTournamentWinner pop p.1 p.2
+
 end Sel
 end Bingo
